@@ -53,7 +53,7 @@ let run_ownership (parts : string list) : string =
     let viol = match v with Some O -> "0" | Some _ -> "1" | None -> "?" in
     Printf.sprintf "viol=%s code=%s pinned=%s all=%s" viol (code_str v) (code_str (doh_verdict true (nat_of_int k)))
       (if all_safe 13 then "safe" else "unsafe")
-  | "rdfault" | "listen" | "fallback" | "handover" | "emptyresp" as sc ->
+  | "rdfault" | "listen" | "fallback" | "handover" | "emptyresp" | "prefetch" as sc ->
     (* round 4: fault paths and pooled objects. model of record = the code as it is (even protocol numbers);
        pinned column = the verdicts of the variants for the same named schedule *)
     let p, k, variants = (match sc, sched with
@@ -70,6 +70,8 @@ let run_ownership (parts : string list) : string =
       | "handover", ("cancel-after-reply" | "deadline-after-reply") -> 5, 1, [6]
       | "handover", "cancel-before-reply" -> 5, 2, [6]
       | "emptyresp", _ -> 7, 0, [8]
+      | "prefetch", "hit-fresh" -> 9, 0, [10]
+      | "prefetch", "hit-last-quarter" -> 9, 1, [10]
       | _, s -> failwith ("unknown schedule " ^ s)) in
     let v = own4_verdict (nat_of_int p) (nat_of_int k) in
     let viol = match v with Some O -> "0" | Some _ -> "1" | None -> "?" in
